@@ -87,7 +87,7 @@ class RecordingLogger:
         self.flushes += 1
 
 
-def build_actions(hist, rng, env, rich=None):
+def build_actions(hist, rng, env, rich=None, admit=None):
     """Model history -> concrete script actions (real targets, real values)."""
     acts, chosen = [], {}
 
@@ -113,7 +113,8 @@ def build_actions(hist, rng, env, rich=None):
             if t.get("noargs"):
                 args = []
             kind = {"F": "plain", "U": "plain", "G": "gen", "C": "coro"}[h["f"]]
-            acts.append({"op": op, "f": t["canon"], "kind": kind, "wanted": t["wanted"], "target": t["name"],
+            wanted = t["wanted"] and (admit is None or t["sigfunc"]().__code__.co_name in admit)
+            acts.append({"op": op, "f": t["canon"], "kind": kind, "wanted": wanted, "target": t["name"],
                          "args": args, "kwargs": kwargs, "sigfunc": t["sigfunc"], "selfargs": t["selfargs_f"],
                          "catch": h["catch"], "draw": h["draw"], "id": h["id"]})
         elif op in ("Resume", "Throw"):
@@ -136,16 +137,22 @@ def run_scenario(sc):
     import monkeytype.tracing as mtt
     S = script.S
     rng = random.Random(sc["seed"])
-    acts, chosen = build_actions(sc["hist"], rng, env, sc.get("rich"))
+    admit = sc.get("admit")
+    acts, chosen = build_actions(sc["hist"], rng, env, sc.get("rich"), admit)
     targets = {n: t["maker_f"] for n, t in env["targets"].items()}
     S.reset(acts, targets, absmodel.abs_value)
-    logger = RecordingLogger(S, env["reg"])
+    reg = env["reg"] if admit is None else {c: (n, w and c.co_name in admit, m) for c, (n, w, m) in env["reg"].items()}
+    logger = RecordingLogger(S, reg)
     traced_path = env["traced_path"]
+    if admit is None:
+        code_filter = lambda code: code.co_filename == traced_path  # noqa: E731
+    else:
+        code_filter = lambda code: code.co_filename == traced_path and code.co_name in admit  # noqa: E731
     old_random = mtt.random
     mtt.random = script.FakeRandom()
     err = "NONE"
     try:
-        with mtt.trace_calls(logger, sc["k"], lambda code: code.co_filename == traced_path, sc["rate"] or None):
+        with mtt.trace_calls(logger, sc["k"], code_filter, sc["rate"] or None):
             tracer = sys.getprofile()
             S.drive()
     except script.ScriptError:
